@@ -169,7 +169,7 @@ ApplyStimulus(L, e, l) ==
                                 !.sol.active = IF rep /\ e.fc = 1 THEN @ ELSE FALSE,
                                 !.ser.active = IF rep /\ e.fc = 1 THEN @ ELSE FALSE,
                                 !.repeat = rep,
-                                !.lastReq = IF Unicast(e, L.cfg) /\ e.wf
+                                !.lastReq = IF Unicast(e, L.cfg) /\ e.wf /\ ProcessedNow(e)
                                               THEN [bid |-> e.bid, seq |-> e.seq]
                                               ELSE @,
                                 !.rd = IF e.fc = 1 /\ Unicast(e, L.cfg) /\ e.wf
